@@ -421,13 +421,17 @@ def check_links(ctx, rule_prefix="link", need_container=False, need_key=False):
     for fn, n, var, uses in sites:
         linked, missing = created_linked(an, fn, n)
         g = an.cfg(fn)
+
+        def is_var(e, at, var=var, fn=fn, n=n):
+            """the variable the new configuration was assigned to, or a local copy of it (an inlined helper's parameter)"""
+            return e.id == var or _from_creation(fn, e, at, n)
         if need_key:
             keyed, kmissing = created_keyed(an, fn, n)
             for kind, u in uses:
                 okk = keyed
                 if not okk and var:
                     ks = {m for m in g.nodes if m.kind == "assign" and isinstance(m.ast, ast.Assign) and any(
-                        isinstance(t, ast.Attribute) and t.attr == "_key" and isinstance(t.value, ast.Name) and t.value.id == var
+                        isinstance(t, ast.Attribute) and t.attr == "_key" and isinstance(t.value, ast.Name) and is_var(t.value, m)
                         for t in m.ast.targets)}
                     if ks and g.path(n, lambda x: x is u, may_raise=lambda x: an.node_may_raise(fn, x),
                                      stop=lambda x: x in ks and x is not u, from_successors=True) is None:
@@ -446,7 +450,7 @@ def check_links(ctx, rule_prefix="link", need_container=False, need_key=False):
             ok = False
             if var:
                 links = {m for m in g.nodes if m.kind == "assign" and isinstance(m.ast, ast.Assign) and any(
-                    isinstance(t, ast.Attribute) and t.attr == "_parent" and isinstance(t.value, ast.Name) and t.value.id == var
+                    isinstance(t, ast.Attribute) and t.attr == "_parent" and isinstance(t.value, ast.Name) and is_var(t.value, m)
                     for t in m.ast.targets)}
                 if links and g.path(n, lambda x: x is u, may_raise=lambda x: an.node_may_raise(fn, x),
                                     stop=lambda x: x in links and x is not u, from_successors=True) is None:
@@ -459,7 +463,7 @@ def check_links(ctx, rule_prefix="link", need_container=False, need_key=False):
                    node=n)
             if need_container and kind == "load_tree" and fn.cls is not None and (fn.cls.is_subclass_of("list") or fn.cls.is_subclass_of("dict")):
                 cl = {m for m in g.nodes if m.kind == "assign" and isinstance(m.ast, ast.Assign) and any(
-                    isinstance(t, ast.Attribute) and t.attr == "_container" and isinstance(t.value, ast.Name) and t.value.id == var
+                    isinstance(t, ast.Attribute) and t.attr == "_container" and isinstance(t.value, ast.Name) and is_var(t.value, m)
                     for t in m.ast.targets)}
                 okc = bool(cl) and g.path(n, lambda x: x is u, may_raise=lambda x: an.node_may_raise(fn, x),
                                           stop=lambda x: x in cl and x is not u, from_successors=True) is None
